@@ -8,7 +8,8 @@
    try/except/else/finally of Doer.do and DoDoer.do is written out as the events
    it produces.  The model follows the code after the repairs recorded in
    known_findings.json (D1 exit order after an interrupted pass, D2 failing
-   enter inside extend, D33/D34 duplicates in extend/remove) and is faithful to
+   enter inside extend, D33/D34 duplicates in extend/remove, D41 remove order
+   during a pass) and is faithful to
    the open findings D3 (mid-pass extend order) and D35 (asap base in a DoDoer).
 
    No proofs here. *)
@@ -330,7 +331,7 @@ with run_effects (fuel : nat) (s : st) (caller : id) (es : list effect) {struct 
       let c := get_sched s target in
       let rdoers := dedupe (filter (fun d => memN d (doers c)) who) [] in
       let is_r d := match d with DDeed i _ => memN i rdoers | DMark => false end in
-      let rdeeds := filter is_r (deeds c) in
+      let rdeeds := filter is_r (unrotate (deeds c)) in    (* enter order: found behind the marker first *)
       let keep := filter (fun d => negb (is_r d)) (deeds c) in
       let s1 := set_sched s target {| doers := fold_left (fun l d => remove_first d l) rdoers (doers c);
                                       deeds := keep |} in
